@@ -8,6 +8,7 @@
   Part 3: the model decides exactly as `Spec.Auth.authorize` (see `Lemmas/AuthSpec*.lean`).
 -/
 import RumaModel.Lemmas.Auth
+import RumaModel.Lemmas.AuthSpecRules
 import RumaModel.Spec.AuthRules
 import RumaModel.Generated.C08
 namespace Ruma.Props.C08
@@ -245,7 +246,7 @@ theorem knock_requires_knock_rule (rules : AuthRules) (ev : Event) (f : Fetch) (
 
 /-- The same per room version: in v7–v9 the join rule must be `knock`; in v10–v11 `knock` or
 `knock_restricted`; before v7 no knock is ever accepted. -/
-theorem knock_requires_knock_rule_by_version (v : Nat) (hv : v ∈ Spec.Auth.versions) (ev : Event) (f : Fetch)
+theorem knock_requires_knock_rule_by_version (v : Nat) (_hv : v ∈ Spec.Auth.versions) (ev : Event) (f : Fetch)
     (target : Str) (hty : ev.type = tMember) (hsk : ev.stateKey = some target)
     (hm : contentMembership ev.content = .ok mKnock)
     (h : authCheck (Spec.Auth.rulesOf v) ev f = true) :
@@ -311,6 +312,235 @@ theorem cannot_lower_equal_or_higher_user (rules : AuthRules) (ev : Event) (f : 
       · exact Or.inl hus
       · exact Or.inr (h hus)
 
+/-! ## Part 3 — the model decides exactly as the specification -/
+
+open Ruma.AuthSpec (InSpecDomain PLOk PLContentOk TpiSigsOk SigsOk Allows)
+open Ruma.Spec.Auth (rulesOf orReject)
+
+/-- The full-strength statement: for every room version, event and state, model = spec. -/
+def authCheck_eq_specStatement : Prop :=
+  ∀ v ∈ Spec.Auth.versions, ∀ (ev : Event) (f : Fetch),
+    authCheck (rulesOf v) ev f = Spec.Auth.authorize v ev f
+
+/-- **Model = spec** for every room version 1–11, every event and every state of the comparison
+domain `InSpecDomain`: the model of `auth_check`, run with the rule flags the implementation uses for
+that version, accepts exactly when the specification's authorization rules accept.
+What `_partial` leaves out, against `authCheck_eq_specStatement` (both refuted below as stated):
+(1) power-levels contents whose `events` map uses the spelling
+`org.matrix.call.sdp_stream_metadata_changed` (ruma's `TimelineEventType` identifies it with
+`m.call.sdp_stream_metadata_changed`; the spec compares type strings);
+(2) third-party invites whose `signed.signatures` has an entity that is not an object (the
+implementation's answer then depends on the order of the entities).
+The remaining condition of `InSpecDomain` — the level maps have pairwise different keys — holds
+for every JSON object. -/
+theorem authCheck_eq_spec_partial (v : Nat) (hv : v ∈ Spec.Auth.versions) (rules : AuthRules)
+    (hr : AuthRules.ofVersion? v = some rules) (ev : Event) (f : Fetch) (h : InSpecDomain ev f) :
+    authCheck rules ev f = Spec.Auth.authorize v ev f := by
+  have : rules = rulesOf v := by
+    have := ofVersion_eq_spec v hv
+    rw [hr] at this
+    exact Option.some.inj this
+  subst this
+  exact (AuthSpec.authCheck_eq_authorize v ev f h).symm
+
+/-- Rule 1 (`m.room.create`). -/
+theorem create_eq_spec (v : Nat) (ev : Event) :
+    Spec.Auth.rule1 v ev = .allow ↔ checkRoomCreate (rulesOf v) ev = .ok () :=
+  AuthSpec.create_eq_spec v ev
+
+/-- Rule 4.3 (join, including restricted joins). -/
+theorem member_join_eq_spec (v : Nat) (ev : Event) (target : Str) (create : Event) (f : Fetch)
+    (hpl : PLOk (fetchPowerLevels f)) :
+    orReject (Spec.Auth.rule4_3 v ev target create f) = .allow ↔
+      checkMemberJoin (rulesOf v) ev target create f = .ok () :=
+  AuthSpec.member_join_eq_spec v ev target create f hpl
+
+/-- Rule 4.4 (invite, including third-party invites). -/
+theorem member_invite_eq_spec (v : Nat) (ev : Event) (target : Str) (create : Event) (f : Fetch)
+    (hpl : PLOk (fetchPowerLevels f)) (hs : TpiSigsOk ev) :
+    orReject (Spec.Auth.rule4_4 v ev target create f) = .allow ↔
+      checkMemberInvite (rulesOf v) ev target create f = .ok () :=
+  AuthSpec.member_invite_eq_spec v ev target create f hpl hs
+
+/-- Rule 4.5 (leave, kick, unban). -/
+theorem member_leave_eq_spec (v : Nat) (ev : Event) (target : Str) (create : Event) (f : Fetch)
+    (hpl : PLOk (fetchPowerLevels f)) :
+    orReject (Spec.Auth.rule4_5 v ev target create f) = .allow ↔
+      checkMemberLeave (rulesOf v) ev target create f = .ok () :=
+  AuthSpec.member_leave_eq_spec v ev target create f hpl
+
+/-- Rule 4.6 (ban). -/
+theorem member_ban_eq_spec (v : Nat) (ev : Event) (target : Str) (create : Event) (f : Fetch)
+    (hpl : PLOk (fetchPowerLevels f)) :
+    orReject (Spec.Auth.rule4_6 v ev target create f) = .allow ↔
+      checkMemberBan (rulesOf v) ev target create f = .ok () :=
+  AuthSpec.member_ban_eq_spec v ev target create f hpl
+
+/-- Rule 4.7 (knock). -/
+theorem member_knock_eq_spec (v : Nat) (ev : Event) (target : Str) (f : Fetch) :
+    orReject (Spec.Auth.rule4_7 v ev target f) = .allow ↔
+      checkMemberKnock (rulesOf v) ev target f = .ok () :=
+  AuthSpec.member_knock_eq_spec v ev target f
+
+/-- Rule 9 (power-level changes). -/
+theorem power_levels_eq_spec (v : Nat) (ev : Event) (pl : Option Event) (sl : Int)
+    (hpl : PLOk pl) (hev : PLContentOk ev.content) :
+    orReject (Spec.Auth.rule9 v ev pl sl) = .allow ↔ checkRoomPowerLevels (rulesOf v) ev pl sl = .ok () :=
+  AuthSpec.power_levels_eq_spec v ev pl sl hpl hev
+
+/-- Rule 10a (redaction, v1–v2). -/
+theorem redaction_eq_spec (v : Nat) (ev : Event) (pl : Option Event) (sl : Int) :
+    orReject (Spec.Auth.rule10a v ev pl sl) = .allow ↔ checkRoomRedaction (rulesOf v) ev pl sl = .ok () :=
+  AuthSpec.redaction_eq_spec v ev pl sl
+
+/-! ### Concrete rooms: the hypotheses above are satisfiable, and the two exclusions are necessary -/
+
+section Examples
+
+def exCreator : Str := bs "@creator:s1"
+def exAlice : Str := bs "@alice:s1"
+def exBob : Str := bs "@bob:s1"
+
+def exCreate : Event :=
+  { eventId := bs "$create", roomId := bs "!room:s1", sender := exCreator, type := tCreate,
+    stateKey := some [], content := [(bs "creator", .str exCreator)] }
+
+def exMember (user membership : Str) : Event :=
+  { eventId := bs "$m", roomId := bs "!room:s1", sender := user, type := tMember, stateKey := some user,
+    content := [(bs "membership", .str membership)], authEvents := [bs "$create"] }
+
+def exJoinRules (rule : Str) : Event :=
+  { eventId := bs "$jr", roomId := bs "!room:s1", sender := exCreator, type := tJoinRules, stateKey := some [],
+    content := [(bs "join_rule", .str rule)], authEvents := [bs "$create"] }
+
+def exPowerLevels (content : Obj) : Event :=
+  { eventId := bs "$pl", roomId := bs "!room:s1", sender := exCreator, type := tPowerLevels, stateKey := some [],
+    content := content, authEvents := [bs "$create"] }
+
+/-- A state as a list of state events. -/
+def exState (l : List Event) : Fetch :=
+  fun t k => l.find? (fun e => e.type == t && e.stateKey == some k)
+
+/-- Alice, banned, tries to join a public room. -/
+def exBannedJoin : Event := { exMember exAlice mJoin with eventId := bs "$ev", prevEvents := [bs "$x"] }
+def exBannedState : Fetch := exState [exCreate, exJoinRules jrPublic, exMember exAlice mBan]
+
+example : authCheck AuthRules.v7 exBannedJoin exBannedState = false := by decide +kernel
+example : userMembership exBannedState exAlice = .ok mBan := rfl
+
+/-- Alice knocks on a public room: rejected in every version (accepted in v7–v9 before the F2 repair). -/
+def exKnock : Event := { exMember exAlice mKnock with eventId := bs "$ev", prevEvents := [bs "$x"] }
+def exPublicState : Fetch := exState [exCreate, exJoinRules jrPublic, exMember exCreator mJoin]
+def exKnockState : Fetch := exState [exCreate, exJoinRules jrKnock, exMember exCreator mJoin]
+
+example : ∀ v ∈ Spec.Auth.versions, authCheck (rulesOf v) exKnock exPublicState = false := by decide +kernel
+example : authCheck AuthRules.v7 exKnock exKnockState = true := by decide +kernel
+example : Spec.Auth.authorize 7 exKnock exPublicState = false := by decide +kernel
+
+/-- Alice (level 50) raises Bob to 50: allowed; to 51: rejected. -/
+def exPl (bob : Int) : Obj :=
+  [(bs "users", .obj [(exAlice, .int 50), (exBob, .int bob)])]
+def exPlState : Fetch :=
+  exState [exCreate, exMember exAlice mJoin, exPowerLevels [(bs "users", .obj [(exAlice, .int 50)])]]
+def exPlChange (bob : Int) : Event :=
+  { exPowerLevels (exPl bob) with eventId := bs "$ev", sender := exAlice, prevEvents := [bs "$x"] }
+
+example : authCheck AuthRules.v11 (exPlChange 50) exPlState = true := by decide +kernel
+example : authCheck AuthRules.v11 (exPlChange 51) exPlState = false := by decide +kernel
+example : Spec.Auth.authorize 11 (exPlChange 51) exPlState = false := by decide +kernel
+
+/-- Allowed events that satisfy the hypotheses of the corollaries: a join into a public room, a kick
+and a ban by the creator (level 100 without a power-levels event), an ordinary message. -/
+def exJoin : Event := { exMember exAlice mJoin with eventId := bs "$ev", prevEvents := [bs "$x"] }
+def exJoinedState : Fetch :=
+  exState [exCreate, exJoinRules jrPublic, exMember exCreator mJoin, exMember exAlice mJoin]
+def exKick : Event :=
+  { exMember exAlice mLeave with eventId := bs "$ev", sender := exCreator, prevEvents := [bs "$x"] }
+def exBan : Event :=
+  { exMember exAlice mBan with eventId := bs "$ev", sender := exCreator, prevEvents := [bs "$x"] }
+def exMessage : Event :=
+  { eventId := bs "$ev", roomId := bs "!room:s1", sender := exAlice, type := bs "m.room.message",
+    stateKey := none, content := [], authEvents := [bs "$create"], prevEvents := [bs "$x"] }
+
+example : authCheck AuthRules.v1 exJoin exPublicState = true := by decide +kernel
+example : authCheck AuthRules.v6 exKick exJoinedState = true := by decide +kernel
+example : authCheck AuthRules.v6 exBan exJoinedState = true := by decide +kernel
+example : authCheck AuthRules.v11 exMessage exJoinedState = true := by decide +kernel
+/-- Alice (level 0) cannot kick the creator. -/
+example : authCheck AuthRules.v6
+    { exMember exCreator mLeave with eventId := bs "$ev", sender := exAlice, prevEvents := [bs "$x"] }
+    exJoinedState = false := by decide +kernel
+
+/-- Exclusion (1) is necessary: with the alias spelling as a key of `events`, model and spec differ. -/
+def exAliasType : Str := bs "org.matrix.call.sdp_stream_metadata_changed"
+def exAliasState : Fetch :=
+  exState [exCreate, exMember exAlice mJoin, exPowerLevels [(bs "events", .obj [(exAliasType, .int 100)])]]
+def exAliasEvent : Event :=
+  { eventId := bs "$ev", roomId := bs "!room:s1", sender := exAlice,
+    type := bs "m.call.sdp_stream_metadata_changed", stateKey := none, content := [],
+    authEvents := [bs "$create"], prevEvents := [bs "$x"] }
+
+theorem alias_witness :
+    authCheck (rulesOf 11) exAliasEvent exAliasState = false ∧
+    Spec.Auth.authorize 11 exAliasEvent exAliasState = true := by decide +kernel
+
+/-- Exclusion (2) is necessary: an entity of `signatures` that is not an object, sorted before the
+entity with the verifying signature, makes the implementation reject what the rule allows. -/
+def exTpiSigned : JVal :=
+  .obj [(bs "mxid", .str exBob),
+        (bs "signatures", .obj [(bs "a", .int 5), (bs "id.s1", .obj [(bs "ed25519:1", .str (bs "SIG"))])]),
+        (bs "token", .str (bs "tok"))]
+def exTpiInvite : Event :=
+  { eventId := bs "$ev", roomId := bs "!room:s1", sender := exAlice, type := tMember, stateKey := some exBob,
+    content := [(bs "membership", .str mInvite), (bs "third_party_invite", .obj [(bs "signed", exTpiSigned)])],
+    authEvents := [bs "$create"], prevEvents := [bs "$x"],
+    tpiVerified := [(bs "ed25519:1", bs "SIG", bs "KEY")] }
+def exTpiState : Fetch :=
+  exState [exCreate, exMember exAlice mJoin,
+    { eventId := bs "$tpi", roomId := bs "!room:s1", sender := exAlice, type := tThirdPartyInvite,
+      stateKey := some (bs "tok"), content := [(bs "public_key", .str (bs "KEY"))] }]
+
+theorem signature_entity_witness :
+    authCheck (rulesOf 11) exTpiInvite exTpiState = false ∧
+    Spec.Auth.authorize 11 exTpiInvite exTpiState = true := by decide +kernel
+
+/-- Hence the unrestricted statement does not hold of the code as it is. -/
+theorem authCheck_eq_specStatement_refuted : ¬ authCheck_eq_specStatement := by
+  intro h
+  have := h 11 (by decide) exAliasEvent exAliasState
+  rw [alias_witness.1, alias_witness.2] at this
+  exact absurd this (by decide)
+
+/-- The comparison domain is inhabited by the rooms above. -/
+example : InSpecDomain (exPlChange 50) exPlState := by
+  refine ⟨?_, ?_, ?_⟩
+  · intro e he
+    have : e = exPowerLevels [(bs "users", .obj [(exAlice, .int 50)])] := by
+      have h2 : fetchPowerLevels exPlState = some (exPowerLevels [(bs "users", .obj [(exAlice, .int 50)])]) :=
+        rfl
+      rw [h2] at he; exact (Option.some.inj he).symm
+    subst this
+    refine ⟨?_, ?_⟩
+    · intro name kvs hk
+      simp only [exPowerLevels, Obj.get] at hk
+      split at hk
+      · simp at hk; subst hk; decide +kernel
+      · simp at hk
+    · intro kvs hk; simp [exPowerLevels, Obj.get] at hk; exact absurd hk.1 (by decide)
+  · intro _
+    refine ⟨?_, ?_⟩
+    · intro name kvs hk
+      simp only [exPlChange, exPowerLevels, exPl, Obj.get] at hk
+      split at hk
+      · simp at hk; subst hk; decide +kernel
+      · simp at hk
+    · intro kvs hk; simp [exPlChange, exPowerLevels, exPl, Obj.get] at hk; exact absurd hk.1 (by decide)
+  · intro signed sigs hc
+    have : contentThirdPartyInvite (exPlChange 50).content = .ok none := rfl
+    rw [this] at hc; simp at hc
+
+end Examples
+
 end Ruma.Props.C08
 
 #print axioms Ruma.Props.C08.rules_table_eq_spec
@@ -325,3 +555,15 @@ end Ruma.Props.C08
 #print axioms Ruma.Props.C08.cannot_lower_equal_or_higher_user
 #print axioms Ruma.Props.C08.knock_requires_knock_rule
 #print axioms Ruma.Props.C08.knock_requires_knock_rule_by_version
+#print axioms Ruma.Props.C08.authCheck_eq_spec_partial
+#print axioms Ruma.Props.C08.create_eq_spec
+#print axioms Ruma.Props.C08.member_join_eq_spec
+#print axioms Ruma.Props.C08.member_invite_eq_spec
+#print axioms Ruma.Props.C08.member_leave_eq_spec
+#print axioms Ruma.Props.C08.member_ban_eq_spec
+#print axioms Ruma.Props.C08.member_knock_eq_spec
+#print axioms Ruma.Props.C08.power_levels_eq_spec
+#print axioms Ruma.Props.C08.redaction_eq_spec
+#print axioms Ruma.Props.C08.alias_witness
+#print axioms Ruma.Props.C08.signature_entity_witness
+#print axioms Ruma.Props.C08.authCheck_eq_specStatement_refuted
